@@ -180,6 +180,18 @@ func RouterCases(seed int64, n int) []Case {
 			Label: map[string]string{"set": routerSetID(ts), "base": bf.ID, "sec": sec, "cors": bstr(cors), "typed": bstr(typed)}})
 	}
 	// fixed part: hand-picked sets that exercise backtracking, early ending, trailing slashes
+	// segments that differ only in characters goag drops from identifiers, and a
+	// literal spelled like a sibling's variable (the variable of template 1 at
+	// position 2 is named v2)
+	{
+		for i, set := range [][]string{{"a-b/a", "a_b/b"}, {"a/v2/a", "a/{}/b"}, {"a.b/a", "a-b/{}", "ab/b"}, {"a/-/a", "a/_/b", "a/{}/{}"}} {
+			var ts []tmpl
+			for _, s := range set {
+				ts = append(ts, tmpl{strings.Split(s, "/")})
+			}
+			mk(fmt.Sprintf("router-names-%02d", i), ts, BaseForms[i%3], false, false, "", false, false)
+		}
+	}
 	fixed := [][]string{
 		{"a", "a/{}"}, {"a/{}"}, {"a/{}/{}"}, {"a/a/{}/{}", "a/a"},
 		{"{}/a/{}/{}", "{}/{}/a"}, {"a/b", "{}/a"}, {"a/b", "{}/b", "a/{}"},
